@@ -24,7 +24,7 @@ META = dict(
 
 
 class IpH(explore.Harness):
-    ALPH = ["req1", "req2", "deliver", "replay-first", "replay-last", "future", "corrupt", "cancel", "timer"]
+    ALPH = ["req1", "req2", "deliver", "deliver-1.5", "replay-first", "replay-last", "future", "corrupt", "cancel", "timer"]
 
     def __init__(self, p):
         self.p = p
@@ -38,6 +38,7 @@ class IpH(explore.Harness):
         self.delivered = {}  # cid -> list of (seq, bytes)
         self.genuine = {}  # digest(frame[2:]) -> (cid, seq)
         self.bad = set()  # digests of corrupted frames
+        self.part = {}  # cid -> bytes of the head-of-queue frame already delivered (a read that ended inside it)
         self.tasks = []
         self.viol = []
         self.depth_used = 0
@@ -82,14 +83,18 @@ class IpH(explore.Harness):
             elif a == "deliver":
                 if cur and self.queue.get(cur.cid):
                     m.append(a)
+            elif a == "deliver-1.5":
+                # one read carrying a whole frame and the beginning of the next one (a TCP segment boundary inside a frame)
+                if cur and len(self.queue.get(cur.cid, [])) >= 2 and not self.part.get(cur.cid):
+                    m.append(a)
             elif a in ("replay-first", "replay-last"):
                 if cur and self.delivered.get(cur.cid) and (a == "replay-first" or len(self.delivered[cur.cid]) > 1):
                     m.append(a)
             elif a == "future":
-                if cur and self.queue.get(cur.cid):
+                if cur and self.queue.get(cur.cid) and not self.part.get(cur.cid):
                     m.append(a)
             elif a == "corrupt":
-                if cur and self.queue.get(cur.cid):
+                if cur and self.queue.get(cur.cid) and not self.part.get(cur.cid):
                     m.append(a)
             elif a == "cancel":
                 if busy:
@@ -113,7 +118,14 @@ class IpH(explore.Harness):
         elif label == "deliver":
             seq, f = self.queue[cur.cid].pop(0)
             self.delivered.setdefault(cur.cid, []).append((seq, f))
-            cur.send(f)
+            cur.send(f[self.part.pop(cur.cid, 0):])
+        elif label == "deliver-1.5":
+            seq, f = self.queue[cur.cid].pop(0)
+            self.delivered.setdefault(cur.cid, []).append((seq, f))
+            nxt = self.queue[cur.cid][0][1]
+            k = max(2, len(nxt) // 2)
+            self.part[cur.cid] = k
+            cur.send(f + nxt[:k])
         elif label in ("replay-first", "replay-last"):
             seq, f = self.delivered[cur.cid][0 if label == "replay-first" else -2]
             cur.send(f)
@@ -173,7 +185,7 @@ class IpH(explore.Harness):
                 if cur and self.queue.get(cur.cid):
                     seq, f = self.queue[cur.cid].pop(0)
                     self.delivered.setdefault(cur.cid, []).append((seq, f))
-                    cur.send(f)
+                    cur.send(f[self.part.pop(cur.cid, 0):])
                 elif not self.loop.fire_next_timer():
                     break
             self._check()
@@ -188,7 +200,7 @@ class IpH(explore.Harness):
         from vt import canon as _c
 
         st = (st, _c.canon(pr, depth=2, skip=("connection", "loop", "transport", "encryptor", "decryptor", "c2a_key", "a2c_key")) if pr is not None else None)
-        return (st, cur.cid if cur else None, tuple(len(v) for v in self.queue.values()), tuple((t.done(), t.cancelled()) for t in self.tasks), len(self.net.conns),
+        return (st, cur.cid if cur else None, tuple(sorted(self.part.items())), tuple(len(v) for v in self.queue.values()), tuple((t.done(), t.cancelled()) for t in self.tasks), len(self.net.conns),
                 tuple(sorted(round(h._when - self.loop.time(), 6) for h in self.loop._scheduled if not h._cancelled)), len(self.log.events))
 
     def outcome(self):
@@ -248,5 +260,5 @@ def run(ctx):
     ctx.bounds.update(depth=depth, transports=list(HARNESSES))
     ctx.pmap(_work, work)
     ctx.exhaustive = not ctx.acc.capped
-    for s in ("req1", "req2", "req", "deliver", "replay-first", "replay", "step", "drop", "future", "corrupt", "cancel", "timer", "ev", "ev-replay", "ev-corrupt"):
+    for s in ("req1", "req2", "req", "deliver", "replay-first", "replay", "step", "drop", "future", "corrupt", "cancel", "timer", "ev", "ev-replay", "ev-corrupt", "ev-odd", "ev-replay-last", "deliver-1.5"):
         ctx.require(ctx.acc.symbols[s] > 0, f"symbol {s} never taken")
